@@ -33,7 +33,8 @@ Shape(e, min) ==
           THEN <<"char_id_per_cell">> ELSE <<>>)
       \o (IF e.fmt = "nexml" /\ e.wraised # "" /\ min.type = "standard" /\ e.route \in {"exported", "exported_typed"}
           THEN <<"standard_clone_or_export">>
-          ELSE IF e.fmt = "nexml" /\ e.wraised # "" /\ min.type = "standard" /\ e.route = "concatenated"
+          ELSE IF e.fmt = "nexml" /\ e.wraised # "" /\ min.type = "standard"
+                  /\ e.route \in {"concatenated", "typed_self_concatenated", "typed_aba"}
           THEN <<"standard_concatenation">> ELSE <<>>))
 Cls(e, min, stage) == Variant(e) \o ":" \o Shape(e, min) \o ":" \o stage
 
@@ -73,6 +74,9 @@ JudgeDataSet(e) ==
         taxaTitles == IF e.blocks_ok THEN [k \in DOMAIN TaxaIdx(e.blocks) |-> e.blocks[TaxaIdx(e.blocks)[k]].title] ELSE <<>>
         cls(stage) == e.fmt \o ":titles=" \o e.setting \o ":" \o (IF e.nns > 1 THEN "multi_ns" ELSE "one_ns")
                       \o (IF e.fmt = "nexus" /\ CaseDup(taxaTitles) THEN ":titles_equal_up_to_case" ELSE "")
+                      \o (IF e.fmt = "nexus" /\ e.blocks_ok /\ \E i \in DOMAIN e.blocks : e.blocks[i].kind = "SETS" /\ e.blocks[i].link = <<>>
+                                                                                           /\ CharsBefore(e.blocks, i) > 1
+                          THEN ":unlinked_sets_block_after_second_matrix" ELSE "")
                       \o (IF e.fmt = "nexml" /\ \E k \in DOMAIN e.comps_in : e.comps_in[k].kind = "CHARACTERS" /\ ~e.comps_in[k].typed
                                                                             /\ Len(e.comps_in[k].taxa) > 1
                           THEN ":char_id_per_cell" ELSE "") \o ":" \o stage
